@@ -166,6 +166,19 @@ def estimator_part(ctx, fails):
         dfm.loc[dfm.index[rs.choice(len(dfm), size=max(2, len(dfm) // 10), replace=False)], 'Y'] = np.nan
         both(f, dfm, replicate(dfm), 'AIPTW.missing-outcome', 'AIPTW with missing outcomes', fails, ctx,
              {'part': 'estimators', 'data': {c: [None if (isinstance(v, float) and v != v) else v for v in dfm[c].tolist()] for c in dfm.columns}, 'meta': meta})
+        for std in ('population', 'exposed', 'unexposed'):
+            def f(frame, w, std=std):
+                g = TimeFixedGFormula(frame, 'A', 'Y', outcome_type=otype, standardize=std, weights=w)
+                g.outcome_model('A + ' + rhs, print_results=False)
+                vals = []
+                for plan in ('all', 'none'):
+                    for pm in (True, False):
+                        g.fit(plan, predict_missing=pm)
+                        vals.append(g.marginal_outcome)
+                return vals
+            both(f, dfm, replicate(dfm), 'TimeFixedGFormula.missing-outcome.%s' % std,
+                 'TimeFixedGFormula(standardize=%s) with missing outcomes, predict_missing True and False' % std, fails, ctx,
+                 {'part': 'estimators', 'frame': datagen.pack_frame(dfm), 'meta': meta})
         if otype != 'poisson':
             def f(frame, w):
                 g = GEstimationSNM(frame, exposure='A', outcome='Y', weights=w)
